@@ -326,7 +326,8 @@ def run_base(res, idx, triples, shard=0):
         for a, b in itertools.combinations(sts, 2):
             if a[0] % 8 != shard:
                 continue
-            for ka, kb in (("#", "#"), ("#", "/**/"), ("/**/", "#"), ("2line", "#"), ("#odd", "#")):
+            for ka, kb in ((("#", "#"), ("/**/", "#"), ("#odd", "2line")) if _TIER[0] == "quick" else
+                           (("#", "#"), ("#", "/**/"), ("/**/", "#"), ("2line", "#"), ("#odd", "#"), ("#odd", "2line"))):
                 combos.append([(a, ka, 1), (b, kb, 2)])
         if shard == 0:
             combos.append([(s, KINDS[i % 2], i + 1) for i, s in enumerate(sts)])          # all sites filled
@@ -427,7 +428,7 @@ def units(tier):  # noqa: F811
 
 def describe(tier):
     return {"rule": "case = (base document, set of uniquely numbered comment placements); state = distinct source text",
-            "bounds": {"bases": len(bases(tier)), "comment_kinds": KINDS, "placements": "all singles x 3 kinds, all pairs x 4 kind combinations, all-filled"
+            "bounds": {"bases": len(bases(tier)), "comment_kinds": KINDS, "placements": "all singles x 4 kinds, all pairs x %d kind combinations, all-filled" % (3 if tier == "quick" else 6)
                        + (", all triples on bases with <= 14 sites" if tier == "thorough" else ""), "corpus_files": len(corpus.files())}}
 
 
